@@ -7,7 +7,6 @@ import LdkModel.Props.C16
 #print axioms Ldk.C16.compute_fees_monotone
 #print axioms Ldk.C16.compute_fees_saturating_agrees
 #print axioms Ldk.C16.recompute_fees_sound
-#print axioms Ldk.C16.recompute_fees_margins_partial
-#print axioms Ldk.C16.final_raise_underpays
+#print axioms Ldk.C16.final_raise_pays_policy_fee
 #print axioms Ldk.C16.raise_is_reported_as_fee
 #print axioms Ldk.C16.recompute_none_only_on_fee_overflow
